@@ -348,9 +348,9 @@ func init() {
 	props["C02"] = func(c *Ctx) {
 		c.Res.Rule = "case = inventory (0-6 containers, shared/prefix names, images, states, Docker label keys needing sanitisation, no sanitisation collisions) x selector (0-3 matchers over built-in, sanitised and absent labels; = != =~ !~; regexes: literal, proper prefix, prefix.*, random) x window (fractional seconds; instant or range; and, separately, the window asked for under count_over_time with range 1-300 s and offset 0-3600 s), evaluated through logql.Parse + Engine.Eval + dockerlog.Querier over a fake Docker client; non-trivial = selected set is a proper non-empty subset of the inventory; distinct by request line"
 		spec := &Spec[c02Case]{
-			What: "Docker.select/getLabels/logsWindow == Engine.Eval over dockerlog.Querier (opened ids, LogsOptions, per-line labels)",
-			Gen:  c02Gen,
-			Req: c02Req,
+			What:   "Docker.select/getLabels/logsWindow == Engine.Eval over dockerlog.Querier (opened ids, LogsOptions, per-line labels)",
+			Gen:    c02Gen,
+			Req:    c02Req,
 			Impl:   c02Impl,
 			Equal:  c02Equal,
 			Shrink: c02Shrink,
